@@ -304,10 +304,20 @@ func c23Random(r *kit.Rand, n, maxLen int) []*txCase {
 // its first ping / execute / field-list call on one slice.
 func c23ReloadDuring(r *kit.Rand, c *txCase) *txFault {
 	var cand []int
+	txSeen := false
 	for i, st := range c.Steps {
 		switch st.Op {
+		case "begin", "ac0":
+			txSeen = true
 		case "ping", "ru", "rs1", "ws2", "wu", "fl":
 			cand = append(cand, i)
+		case "sr", "sm":
+			// streamed answers: only while the session cannot be in a transaction (the
+			// driver's backend-free sync command after a streamed answer would otherwise be
+			// the command that is refused)
+			if !txSeen {
+				cand = append(cand, i, i)
+			}
 		}
 	}
 	if len(cand) == 0 {
@@ -350,6 +360,10 @@ func c23Curated() []*txCase {
 	mk([]string{"ru", "ac0", "ping", "commit"}, 2, "slice-0", "ping")
 	mk([]string{"ru", "fl", "ru"}, 1, "slice-0", "fieldlist")
 	mk([]string{"sr", "ru", "sm", "ru", "ping"}, -1, "", "")
+	mk([]string{"ru", "sr", "ru", "sr"}, 1, "slice-0", "exec")
+	mk([]string{"sr", "ru"}, 0, "slice-0", "exec")
+	mk([]string{"rs1", "sm", "rs1", "ru"}, 1, "slice-0", "exec")
+	mk([]string{"ws2", "sm", "ping", "sm"}, 1, "slice-0", "exec")
 	mk([]string{"ru", "sr", "begin", "sr", "sm", "commit", "sr"}, -1, "", "")
 	mk([]string{"ac0", "sr", "sm", "ac1", "sm"}, -1, "", "")
 	return out
